@@ -19,7 +19,7 @@ var c15Seps = []string{" ", " - ", " | ", " » ", " / ", " > ", " \\ ", ": ", "-
 
 var c15H1 = []string{"absent", "title", "part", "other"}
 var c15H2 = []string{"absent", "title", "other"}
-var c15Markup = []string{"absent", "schema", "og", "og-unqualified", "og-padded", "ie-padded", "og-optout"}
+var c15Markup = []string{"absent", "schema", "og", "og-unqualified", "og-padded", "ie-padded", "og-optout", "og-upper"}
 
 func c15Title(ws, ss []int) string {
 	var sb strings.Builder
@@ -67,6 +67,9 @@ func c15Doc(title, h1, h2, markup string) string {
 		head.WriteString("<meta name=\"title\" content=\" Markup Title Words  \">")
 	case "og-unqualified":
 		head.WriteString("<meta property=\"og:type\" content=\"article\"><meta property=\"og:title\" content=\"Markup Title Words\"><meta property=\"og:url\" content=\"http://x.example/\">")
+	case "og-upper":
+		// a markup title that equals <title> except for letter case
+		head.WriteString("<meta property=\"og:type\" content=\"article\"><meta property=\"og:title\" content=\"" + esc(strings.ToUpper(title)) + "\"><meta property=\"og:url\" content=\"http://x.example/\"><meta property=\"og:image\" content=\"http://x.example/i.jpg\">")
 	case "og-optout":
 		// complete OpenGraph block on a page that opts out: MarkupInfo is empty, so no markup title
 		head.WriteString("<meta name=\"IE_RM_OFF\" content=\"true\"><meta property=\"og:type\" content=\"article\"><meta property=\"og:title\" content=\"Markup Title Words\"><meta property=\"og:url\" content=\"http://x.example/\"><meta property=\"og:image\" content=\"http://x.example/i.jpg\">")
@@ -110,7 +113,7 @@ func c15Enumerate(tier string, emit func(*eng.Case)) {
 						if len(ws) > maxWordsAll && !(h2 == "absent" && (mk == "absent" || mk == "schema")) {
 							continue
 						}
-						if len(ws) > 1 && (mk == "og-padded" || mk == "ie-padded" || mk == "og-optout") && h1 != "absent" {
+						if len(ws) > 1 && (mk == "og-padded" || mk == "ie-padded" || mk == "og-optout" || mk == "og-upper") && h1 != "absent" {
 							continue
 						}
 						emit(&eng.Case{Kind: "title", P: map[string]string{"title": title, "h1": h1, "h2": h2, "markup": mk,
@@ -257,7 +260,7 @@ func init() {
 	eng.Register(&eng.Prop{
 		ID:        "C15",
 		DesignRef: "§5 C15",
-		Rule: "all <title> strings word(sep word)* with <= 3 (quick) / <= 4 (thorough) words over 7 words (3 short, one containing a .com domain, a 26-character filler, a 110-character/200-byte Cyrillic sentence, a 180-character filler) and 11 separators (incl. NBSP) (' ', ' - ', ' | ', ' » ', ' / ', ' > ', ' \\ ', ': ', '-', apostrophe) x h1 {absent, = title, = longest part, other} x h2 {absent, = title, other} x markup title {absent, schema.org headline, OpenGraph qualified, OpenGraph unqualified, OpenGraph and IE titles padded with whitespace/NBSP, qualified OpenGraph on a page that opts out}; the full variant product for titles of <= 2 / <= 3 words, h1 x {no markup, schema} for the longest titles. " +
+		Rule: "all <title> strings word(sep word)* with <= 3 (quick) / <= 4 (thorough) words over 7 words (3 short, one containing a .com domain, a 26-character filler, a 110-character/200-byte Cyrillic sentence, a 180-character filler) and 11 separators (incl. NBSP) (' ', ' - ', ' | ', ' » ', ' / ', ' > ', ' \\ ', ': ', '-', apostrophe) x h1 {absent, = title, = longest part, other} x h2 {absent, = title, other} x markup title {absent, schema.org headline, OpenGraph qualified, OpenGraph unqualified, OpenGraph and IE titles padded with whitespace/NBSP, qualified OpenGraph on a page that opts out, an OpenGraph title equal to <title> in upper case}; the full variant product for titles of <= 2 / <= 3 words, h1 x {no markup, schema} for the longest titles. " +
 			crossRule + " Oracle: MarkupInfo.Title non-empty => Title equals it; else Title is a contiguous part of the normalised <title> or the first h1, non-empty when <title> is, and exactly <title> when that is 15-150 characters with no separator pattern; no h1/h2/h3/p whose text equals Title is emitted in Text or result.Node. " +
 			"Non-trivial = a block equal to Title exists, or the heuristic changed the title.",
 		Enumerate: c15Enumerate,
